@@ -74,6 +74,13 @@ def _(b):
     b['links'][2]['west'] = dict(con_in=0, con_out=0.6)
 
 
+@mut('west_zero_east_not')
+def _(b):
+    # west cells filled with 0 while the east value is not 0: the west fibre takes 0, not the east value
+    b['links'][3]['east'].update(con_in=0.5, con_out=0.4)
+    b['links'][3]['west'] = dict(con_in=0, con_out=0)
+
+
 @mut('float_lengths')
 def _(b):
     b['links'][3]['east']['dist'] = 30.123456
@@ -530,6 +537,8 @@ SERVICE_ROWS = {
     # a second row that is disjoint from the same request as 'disjoint': each row still gets its own group
     'disjoint_same_target': dict(id='s12', src='B', dst='C', trx='Voyager', mode='mode 1', spacing=50, disjoint='s1', bw=100),
     'neg_power': dict(id='s8', src='B', dst='A', trx='Voyager', mode='mode 1', spacing=62.5, power=-2.5, bw=100),
+    # loose list whose first entry is not a site of the workbook (dropped), followed by a site that needs translation
+    'loose_unknown_then_site': dict(id='s13', src='A', dst='C', trx='Voyager', mode='mode 1', spacing=50, path='Nowhere | B', loose='yes', bw=100),
     'blank_loose': dict(id='s9', src='A', dst='B', trx='Voyager', mode='mode 1', spacing=50, path='I | B', bw=100),
     'strict_ila_then_roadm': dict(id='s10', src='A', dst='C', trx='Voyager', mode='mode 1', spacing=50, path='I | B | C', loose='no', bw=100),
     'strict_fused_site': dict(id='s11', src='B', dst='C', trx='Voyager', mode='mode 1', spacing=50, path='F | C', loose='no', bw=100),
@@ -585,7 +594,9 @@ def judge_services(book, data, net, viol, where, tags):
             if any(i not in uids for i in ids):
                 v('service-route-unknown-element', f'row {rid}: {ids}')
             sites = [site_of(i) for i in ids]
-            want = [n for n in names if n not in (s['src'], s['dst'])] if strict == 'STRICT' or True else []
+            known_sites = {site_of(u) for u in uids} - {None}
+            # names that are not sites of the workbook are dropped from a LOOSE list (a STRICT one is an error)
+            want = [n for n in names if n not in (s['src'], s['dst']) and (strict == 'STRICT' or n in known_sites)]
             if [x for x in sites if x not in (s['src'], s['dst'])] != want:
                 v('service-route-sites', f'row {rid}: route crosses sites {sites}, the sheet lists {names}')
             if [h['index'] for h in hops] != list(range(len(hops))):
